@@ -187,8 +187,8 @@ func runC01(cfg *config) *Report {
 			seen[c.rd] = true
 			ops = append(ops, "canonfile\t"+c.rd)
 			want = append(want, true)
-			if !strings.Contains(c.rd, "~VT|") && c.note == "text" {
-				// a file without record 52, of text: the hypothesis of the EBCDIC theorems as well
+			if c.note == "text" {
+				// a file of text (image bytes apart): the hypothesis of the EBCDIC theorems as well
 				ops = append(ops, "canonfilee\t"+c.rd)
 				want = append(want, true)
 			}
